@@ -41,9 +41,9 @@ structure Shape (v : Variant) (r : Relay) : Prop where
   str : r.phase = .linked → r.early = false → r.s.tr = r.s.peer
   earlyTr : r.early = true → r.s.tr = false
   cbuf : r.c.buf = []
-  sbuf : r.phase = .linked → (r.early = false ∨ v = .asIs) → r.s.buf = []
+  sbuf : r.phase = .linked → (r.early = false ∨ v.fixEarly = false) → r.s.buf = []
   failedTr : r.phase = .failed → r.s.tr = false
-  fixedEarly : v = .fixed → r.early = true → r.c.peer = false
+  fixedEarly : v.fixEarly = true → r.early = true → r.c.peer = false
   openPeer : r.phase ≠ .linked → r.s.peer = false
 
 theorem shape_init (v : Variant) : Shape v initListener := by
@@ -59,7 +59,7 @@ theorem shape_step (v : Variant) (r : Relay) (e : Ev) (h : Shape v r) (hl : lega
     cases x <;> cases ph <;> simp only [step, legal, Relay.get, Relay.set, Relay.has, Side.other] at hl ⊢ <;>
       constructor <;> grind
   | eof x =>
-    cases x <;> cases ph <;> cases v <;>
+    cases x <;> cases ph <;> rcases v with ⟨_ | _, _ | _⟩ <;>
       simp only [step, legal, closeFwd, Relay.get, Relay.set, Relay.has, Side.other] at hl ⊢ <;>
       constructor <;> grind
   | lost x =>
@@ -75,7 +75,7 @@ theorem shape_step (v : Variant) (r : Relay) (e : Ev) (h : Shape v r) (hl : lega
       simp only [step, legal, closeFwd, Relay.get, Relay.set, Relay.has, Side.other] at hl ⊢ <;>
       constructor <;> grind
   | confirm =>
-    cases ph <;> cases v <;>
+    cases ph <;> rcases v with ⟨_ | _, _ | _⟩ <;>
       simp only [step, legal, closeFwd, Relay.get, Relay.set, Relay.has, Side.other] at hl ⊢ <;>
       constructor <;> grind
   | fail =>
@@ -137,7 +137,7 @@ theorem step_s2c (v : Variant) (r : Relay) (e : Ev) (h : Shape v r) (hl : legal 
       simp only [step, legal, dataOf, Relay.get, Relay.set, Relay.has, Side.other] at hl ⊢ <;>
       relay_finish <;> (try (cases st <;> simp_all [sent]))
   | eof x =>
-    cases x <;> cases ph <;> cases v <;>
+    cases x <;> cases ph <;> rcases v with ⟨_ | _, _ | _⟩ <;>
       simp only [step, legal, dataOf, closeFwd, Relay.get, Relay.set, Relay.has, Side.other] at hl ⊢ <;>
       relay_finish <;> (try (cases st <;> simp_all [sent]))
   | lost x =>
@@ -153,7 +153,7 @@ theorem step_s2c (v : Variant) (r : Relay) (e : Ev) (h : Shape v r) (hl : legal 
       simp only [step, legal, dataOf, closeFwd, Relay.get, Relay.set, Relay.has, Side.other] at hl ⊢ <;>
       relay_finish <;> (try (cases st <;> simp_all [sent]))
   | confirm =>
-    cases ph <;> cases v <;>
+    cases ph <;> rcases v with ⟨_ | _, _ | _⟩ <;>
       simp only [step, legal, dataOf, closeFwd, Relay.get, Relay.set, Relay.has, Side.other] at hl ⊢ <;>
       relay_finish <;> (try (cases st <;> simp_all [sent]))
   | fail =>
@@ -174,7 +174,7 @@ theorem step_c2s (v : Variant) (r : Relay) (e : Ev) (h : Shape v r) (hl : legal 
       simp only [step, legal, dataOf, Relay.get, Relay.set, Relay.has, Side.other] at hl he ⊢ <;>
       relay_finish <;> (try (cases st <;> simp_all [sent]))
   | eof x =>
-    cases x <;> cases ph <;> cases v <;>
+    cases x <;> cases ph <;> rcases v with ⟨_ | _, _ | _⟩ <;>
       simp only [step, legal, dataOf, closeFwd, Relay.get, Relay.set, Relay.has, Side.other] at hl he ⊢ <;>
       relay_finish <;> (try (cases st <;> simp_all [sent]))
   | lost x =>
@@ -190,7 +190,7 @@ theorem step_c2s (v : Variant) (r : Relay) (e : Ev) (h : Shape v r) (hl : legal 
       simp only [step, legal, dataOf, closeFwd, Relay.get, Relay.set, Relay.has, Side.other] at hl he ⊢ <;>
       relay_finish <;> (try (cases st <;> simp_all [sent]))
   | confirm =>
-    cases ph <;> cases v <;>
+    cases ph <;> rcases v with ⟨_ | _, _ | _⟩ <;>
       simp only [step, legal, dataOf, closeFwd, Relay.get, Relay.set, Relay.has, Side.other] at hl he ⊢ <;>
       relay_finish <;> (try (cases st <;> simp_all [sent]))
   | fail =>
@@ -208,49 +208,92 @@ theorem step_early_mono (v : Variant) (r : Relay) (e : Ev) (h : Shape v r) (he :
   cases e with
   | data x d => cases x <;> cases ph <;> simp only [step, Relay.get, Relay.set, Relay.has, Side.other] <;> grind
   | eof x =>
-    cases x <;> cases ph <;> cases v <;>
+    cases x <;> cases ph <;> rcases v with ⟨_ | _, _ | _⟩ <;>
       simp only [step, closeFwd, Relay.get, Relay.set, Relay.has, Side.other] <;> grind
   | lost x =>
     cases x <;> cases ph <;> simp only [step, closeFwd, Relay.get, Relay.set, Relay.has, Side.other] <;> grind
   | pauseW x => cases x <;> cases ph <;> simp only [step, Relay.get, Relay.set, Relay.has, Side.other] <;> grind
   | resumeW x => cases x <;> cases ph <;> simp only [step, Relay.get, Relay.set, Relay.has, Side.other] <;> grind
   | confirm =>
-    cases ph <;> cases v <;> simp only [step, closeFwd, Relay.get, Relay.set, Relay.has, Side.other] <;> grind
+    cases ph <;> rcases v with ⟨_ | _, _ | _⟩ <;> simp only [step, closeFwd, Relay.get, Relay.set, Relay.has, Side.other] <;> grind
   | fail => cases ph <;> simp only [step, closeFwd, Relay.get, Relay.set, Relay.has, Side.other] <;> grind
 
 /-- case analysis over event kind, side, phase and variant followed by `grind` -/
 macro "relay_bash" e:ident ph:ident v:ident : tactic => `(tactic| (
   cases $e:ident with
   | data x d =>
-    cases x <;> cases $ph:ident <;> cases $v:ident <;>
+    cases x <;> cases $ph:ident <;>
       simp only [step, legal, dataOf, closeFwd, Relay.get, Relay.set, Relay.has, Side.other,
         eofOut, closeOut, eofIn, lostIn] at * <;> grind
   | eof x =>
-    cases x <;> cases $ph:ident <;> cases $v:ident <;>
+    cases x <;> cases $ph:ident <;> rcases $v:ident with ⟨_ | _, _ | _⟩ <;>
       simp only [step, legal, dataOf, closeFwd, Relay.get, Relay.set, Relay.has, Side.other,
         eofOut, closeOut, eofIn, lostIn] at * <;> grind
   | lost x =>
-    cases x <;> cases $ph:ident <;> cases $v:ident <;>
+    cases x <;> cases $ph:ident <;>
       simp only [step, legal, dataOf, closeFwd, Relay.get, Relay.set, Relay.has, Side.other,
         eofOut, closeOut, eofIn, lostIn] at * <;> grind
   | pauseW x =>
-    cases x <;> cases $ph:ident <;> cases $v:ident <;>
+    cases x <;> cases $ph:ident <;>
       simp only [step, legal, dataOf, closeFwd, Relay.get, Relay.set, Relay.has, Side.other,
         eofOut, closeOut, eofIn, lostIn] at * <;> grind
   | resumeW x =>
-    cases x <;> cases $ph:ident <;> cases $v:ident <;>
+    cases x <;> cases $ph:ident <;>
       simp only [step, legal, dataOf, closeFwd, Relay.get, Relay.set, Relay.has, Side.other,
         eofOut, closeOut, eofIn, lostIn] at * <;> grind
   | confirm =>
-    cases $ph:ident <;> cases $v:ident <;>
+    cases $ph:ident <;> rcases $v:ident with ⟨_ | _, _ | _⟩ <;>
       simp only [step, legal, dataOf, closeFwd, Relay.get, Relay.set, Relay.has, Side.other,
         eofOut, closeOut, eofIn, lostIn] at * <;> grind
   | fail =>
-    cases $ph:ident <;> cases $v:ident <;>
+    cases $ph:ident <;>
       simp only [step, legal, dataOf, closeFwd, Relay.get, Relay.set, Relay.has, Side.other,
         eofOut, closeOut, eofIn, lostIn] at * <;> grind))
 
-/-- what one legal step does to the flags and which control calls it emits -/
+/-! what one legal step does to the flags -/
+
+theorem step_flag_eofS (v : Variant) (r : Relay) (e : Ev) (h : Shape v r) (hl : legal r e = true) :
+    (step v r e).1.s.eof = (r.s.eof || e == .eof .sock) := by
+  obtain ⟨⟨st, sp, sb, se, sg⟩, ⟨ct, cp, cb, ce, cg⟩, ph, ea⟩ := r
+  obtain ⟨h1, h2, h3, h4, h5, h6, h7, h8, h9, h10⟩ := h
+  simp only at h1 h2 h3 h4 h5 h6 h7 h8 h9 h10
+  relay_bash e ph v
+
+theorem step_flag_eofC (v : Variant) (r : Relay) (e : Ev) (h : Shape v r) (hl : legal r e = true) :
+    (step v r e).1.c.eof = (r.c.eof || e == .eof .chan) := by
+  obtain ⟨⟨st, sp, sb, se, sg⟩, ⟨ct, cp, cb, ce, cg⟩, ph, ea⟩ := r
+  obtain ⟨h1, h2, h3, h4, h5, h6, h7, h8, h9, h10⟩ := h
+  simp only at h1 h2 h3 h4 h5 h6 h7 h8 h9 h10
+  relay_bash e ph v
+
+theorem step_flag_goneS (v : Variant) (r : Relay) (e : Ev) (h : Shape v r) (hl : legal r e = true) :
+    (step v r e).1.s.gone = (r.s.gone || e == .lost .sock) := by
+  obtain ⟨⟨st, sp, sb, se, sg⟩, ⟨ct, cp, cb, ce, cg⟩, ph, ea⟩ := r
+  obtain ⟨h1, h2, h3, h4, h5, h6, h7, h8, h9, h10⟩ := h
+  simp only at h1 h2 h3 h4 h5 h6 h7 h8 h9 h10
+  relay_bash e ph v
+
+theorem step_flag_goneC (v : Variant) (r : Relay) (e : Ev) (h : Shape v r) (hl : legal r e = true) :
+    (step v r e).1.c.gone = (r.c.gone || e == .lost .chan) := by
+  obtain ⟨⟨st, sp, sb, se, sg⟩, ⟨ct, cp, cb, ce, cg⟩, ph, ea⟩ := r
+  obtain ⟨h1, h2, h3, h4, h5, h6, h7, h8, h9, h10⟩ := h
+  simp only at h1 h2 h3 h4 h5 h6 h7 h8 h9 h10
+  relay_bash e ph v
+
+theorem step_flag_linked (v : Variant) (r : Relay) (e : Ev) (h : Shape v r) (hl : legal r e = true) :
+    ((step v r e).1.phase == .linked) = (r.phase == .linked || e == .confirm) := by
+  obtain ⟨⟨st, sp, sb, se, sg⟩, ⟨ct, cp, cb, ce, cg⟩, ph, ea⟩ := r
+  obtain ⟨h1, h2, h3, h4, h5, h6, h7, h8, h9, h10⟩ := h
+  simp only at h1 h2 h3 h4 h5 h6 h7 h8 h9 h10
+  relay_bash e ph v
+
+theorem step_flag_failed (v : Variant) (r : Relay) (e : Ev) (h : Shape v r) (hl : legal r e = true) :
+    ((step v r e).1.phase == .failed) = (r.phase == .failed || e == .fail) := by
+  obtain ⟨⟨st, sp, sb, se, sg⟩, ⟨ct, cp, cb, ce, cg⟩, ph, ea⟩ := r
+  obtain ⟨h1, h2, h3, h4, h5, h6, h7, h8, h9, h10⟩ := h
+  simp only at h1 h2 h3 h4 h5 h6 h7 h8 h9 h10
+  relay_bash e ph v
+
 structure StepFacts (v : Variant) (r : Relay) (e : Ev) : Prop where
   eofS : (step v r e).1.s.eof = (r.s.eof || e == .eof .sock)
   eofC : (step v r e).1.c.eof = (r.c.eof || e == .eof .chan)
@@ -260,16 +303,8 @@ structure StepFacts (v : Variant) (r : Relay) (e : Ev) : Prop where
   failed : ((step v r e).1.phase == .failed) = (r.phase == .failed || e == .fail)
 
 theorem step_facts (v : Variant) (r : Relay) (e : Ev) (h : Shape v r) (hl : legal r e = true) :
-    StepFacts v r e := by
-  obtain ⟨⟨st, sp, sb, se, sg⟩, ⟨ct, cp, cb, ce, cg⟩, ph, ea⟩ := r
-  obtain ⟨h1, h2, h3, h4, h5, h6, h7, h8, h9, h10⟩ := h
-  simp only at h1 h2 h3 h4 h5 h6 h7 h8 h9 h10
-  constructor
-  · relay_bash e ph v
-  · relay_bash e ph v
-  · relay_bash e ph v
-  · relay_bash e ph v
-  · relay_bash e ph v
-  · relay_bash e ph v
+    StepFacts v r e :=
+  ⟨step_flag_eofS v r e h hl, step_flag_eofC v r e h hl, step_flag_goneS v r e h hl, step_flag_goneC v r e h hl,
+   step_flag_linked v r e h hl, step_flag_failed v r e h hl⟩
 
 end AsyncsshModel.Forward
